@@ -27,6 +27,7 @@ inductive Kind (n : Nat) where
 structure Graph (n : Nat) where
   kind : Fin n → Kind n
   rank : Fin n → Nat
+  wrank : Fin n → Nat := fun _ => 0      -- a weak rank over all edges (see `Graph.wok`)
 
 /-- operands of pairs that wait for their operands have smaller rank -/
 def Graph.ok {n : Nat} (G : Graph n) : Prop :=
@@ -111,61 +112,145 @@ theorem St.open_put {n : Nat} (s : St n) (k : Fin n) (hk : s.set k = false) : (s
 theorem St.addLiteral_err {n : Nat} (s : St n) (k : Fin n) (hk : s.set k = false) : (s.addLiteral k).err = s.err := by
   simp [St.addLiteral, hk, St.put]
 
-/-- every pair that translates its operands first looks again afterwards (Boolean connectives after the repair of D17; no
-    since / trigger / until / release pair: those are never reached again, their operands live at other steps) -/
-def Graph.rechecks {n : Nat} (G : Graph n) : Prop :=
+theorem St.put_set_imp {n : Nat} (s : St n) (k i : Fin n) (h : (s.put k).set i = true) : i = k ∨ s.set i = true := by
+  simp only [St.put] at h
+  by_cases hik : i = k
+  · exact Or.inl hik
+  · right; simpa [hik] using h
+
+theorem St.addLiteral_set_imp {n : Nat} (s : St n) (k i : Fin n) (h : (s.addLiteral k).set i = true) : i = k ∨ s.set i = true := by
+  unfold St.addLiteral at h
+  split at h
+  · exact Or.inr h
+  · exact s.put_set_imp k i h
+
+/-- What keeps the assertion of `add_literal` true.  `wrank` never increases along an edge (unfoldings of box / diamond pairs
+    included); a pair that takes its literal after its operands without looking again (since / trigger / until / release)
+    lies strictly above its operands, so it cannot be reached from them; Boolean connectives may lie on a cycle — they look again
+    (the repair of D17). -/
+def Graph.wok {n : Nat} (G : Graph n) : Prop :=
   ∀ k, match G.kind k with
-    | .op r _ _ => r = true
-    | .op3 _ _ _ => False
-    | _ => True
+    | .leaf => True
+    | .alias c => G.wrank c ≤ G.wrank k
+    | .op r a b => if r = true then G.wrank a ≤ G.wrank k ∧ G.wrank b ≤ G.wrank k
+                   else G.wrank a < G.wrank k ∧ G.wrank b < G.wrank k
+    | .op3 a b c => G.wrank a < G.wrank k ∧ G.wrank b < G.wrank k ∧ G.wrank c < G.wrank k
+    | .early c => G.wrank c ≤ G.wrank k
 
 /-- `BodyFormula.translate` on the pair `k`: returns the new state together with the facts that no literal is lost, that the
-    pair has a literal afterwards, and that no assertion fails when every operands-first pair looks again (`fixed`: the code
-    after the repair of D17; `fixed = false` leaves the second look out). -/
+    pair has a literal afterwards, that only pairs at or below `k` (in `wrank`) obtain a literal, and that no assertion fails
+    (`fixed`: the code after the repair of D17; `fixed = false` leaves the second look of the Boolean connectives out). -/
 def tr {n : Nat} (G : Graph n) (hG : G.ok) (fixed : Bool) (k : Fin n) (s : St n) :
-    { t : St n // s.le t ∧ t.set k = true ∧ (G.rechecks → fixed = true → s.err = false → t.err = false) } :=
-  if hs : s.set k = true then ⟨s, s.le_refl, hs, fun _ _ h => h⟩
+    { t : St n // s.le t ∧ t.set k = true ∧
+        (G.wok → ∀ i, t.set i = true → s.set i = true ∨ G.wrank i ≤ G.wrank k) ∧
+        (G.wok → fixed = true → s.err = false → t.err = false) } :=
+  if hs : s.set k = true then ⟨s, s.le_refl, hs, fun _ _ h => Or.inl h, fun _ _ h => h⟩
   else
     match hk : G.kind k with
-    | .leaf => ⟨s.put k, s.le_put k, s.put_set k, fun _ _ h => h⟩
+    | .leaf => ⟨s.put k, s.le_put k, s.put_set k, by
+        intro _ i h
+        rcases s.put_set_imp k i h with rfl | h
+        · exact Or.inr (Nat.le_refl _)
+        · exact Or.inl h, fun _ _ h => h⟩
     | .alias c =>
       have hr : G.rank c < G.rank k := by have := hG k; rw [hk] at this; exact this
       match tr G hG fixed c s with
-      | ⟨s1, h1, _, e1⟩ => ⟨s1.put k, St.le_trans h1 (s1.le_put k), s1.put_set k, fun g f h => e1 g f h⟩
+      | ⟨s1, h1, _, b1, e1⟩ => ⟨s1.put k, St.le_trans h1 (s1.le_put k), s1.put_set k, by
+          intro g i h
+          have hw : G.wrank c ≤ G.wrank k := by have := g k; rw [hk] at this; exact this
+          rcases s1.put_set_imp k i h with rfl | h
+          · exact Or.inr (Nat.le_refl _)
+          · rcases b1 g i h with h | h
+            · exact Or.inl h
+            · exact Or.inr (Nat.le_trans h hw), fun g f h => e1 g f h⟩
     | .op recheck a b =>
       have hr : G.rank a < G.rank k ∧ G.rank b < G.rank k := by have := hG k; rw [hk] at this; exact this
       match tr G hG fixed a s with
-      | ⟨s1, h1, _, e1⟩ =>
+      | ⟨s1, h1, _, b1, e1⟩ =>
         have : s1.open_ ≤ s.open_ := St.open_le h1
         match tr G hG fixed b s1 with
-        | ⟨s2, h2, _, e2⟩ =>
+        | ⟨s2, h2, _, b2, e2⟩ =>
+          have hw : G.wok → G.wrank a ≤ G.wrank k ∧ G.wrank b ≤ G.wrank k := by
+            intro g; have := g k; rw [hk] at this
+            by_cases hrc : recheck = true
+            · simpa [hrc] using this
+            · simp [hrc] at this; exact ⟨Nat.le_of_lt this.1, Nat.le_of_lt this.2⟩
+          have below : G.wok → ∀ i, s2.set i = true → s.set i = true ∨ G.wrank i ≤ G.wrank k := by
+            intro g i h
+            rcases b2 g i h with h | h
+            · rcases b1 g i h with h | h
+              · exact Or.inl h
+              · exact Or.inr (Nat.le_trans h (hw g).1)
+            · exact Or.inr (Nat.le_trans h (hw g).2)
           if hc : (fixed && recheck && s2.set k) = true then
-            ⟨s2, St.le_trans h1 h2, by simp at hc; exact hc.2, fun g f h => e2 g f (e1 g f h)⟩
+            ⟨s2, St.le_trans h1 h2, by simp at hc; exact hc.2, below, fun g f h => e2 g f (e1 g f h)⟩
           else ⟨s2.addLiteral k, St.le_trans (St.le_trans h1 h2) (s2.le_addLiteral k), s2.addLiteral_set k, by
+            intro g i h
+            rcases s2.addLiteral_set_imp k i h with rfl | h
+            · exact Or.inr (Nat.le_refl _)
+            · exact below g i h, by
             intro g f h
-            have hr' : recheck = true := by have := g k; rw [hk] at this; exact this
             have hk2 : s2.set k = false := by
               cases hq : s2.set k
               · rfl
-              · simp [f, hr', hq] at hc
+              · by_cases hrc : recheck = true
+                · simp [f, hrc, hq] at hc
+                · -- no second look: the pair lies strictly above its operands, so they cannot have reached it
+                  have hstrict := g k; rw [hk] at hstrict; simp [hrc] at hstrict
+                  rcases b2 g k hq with h' | h'
+                  · rcases b1 g k h' with h'' | h''
+                    · simp [h''] at hs
+                    · omega
+                  · omega
             rw [s2.addLiteral_err k hk2]
             exact e2 g f (e1 g f h)⟩
     | .op3 a b c =>
       have hr : G.rank a < G.rank k ∧ G.rank b < G.rank k ∧ G.rank c < G.rank k := by have := hG k; rw [hk] at this; exact this
       match tr G hG fixed a s with
-      | ⟨s1, h1, _, _⟩ =>
+      | ⟨s1, h1, _, b1, e1⟩ =>
         have : s1.open_ ≤ s.open_ := St.open_le h1
         match tr G hG fixed b s1 with
-        | ⟨s2, h2, _, _⟩ =>
+        | ⟨s2, h2, _, b2, e2⟩ =>
           have : s2.open_ ≤ s.open_ := Nat.le_trans (St.open_le h2) this
           match tr G hG fixed c s2 with
-          | ⟨s3, h3, _, _⟩ =>
+          | ⟨s3, h3, _, b3, e3⟩ =>
+            have below : G.wok → ∀ i, s3.set i = true → s.set i = true ∨ G.wrank i < G.wrank k := by
+              intro g i h
+              have hstrict := g k; rw [hk] at hstrict
+              rcases b3 g i h with h | h
+              · rcases b2 g i h with h | h
+                · rcases b1 g i h with h | h
+                  · exact Or.inl h
+                  · exact Or.inr (by omega)
+                · exact Or.inr (by omega)
+              · exact Or.inr (by omega)
             ⟨s3.addLiteral k, St.le_trans (St.le_trans (St.le_trans h1 h2) h3) (s3.le_addLiteral k), s3.addLiteral_set k, by
-              intro g; have := g k; rw [hk] at this; exact this.elim⟩
+              intro g i h
+              rcases s3.addLiteral_set_imp k i h with rfl | h
+              · exact Or.inr (Nat.le_refl _)
+              · rcases below g i h with h | h
+                · exact Or.inl h
+                · exact Or.inr (Nat.le_of_lt h), by
+              intro g f h
+              have hk3 : s3.set k = false := by
+                cases hq : s3.set k
+                · rfl
+                · rcases below g k hq with h' | h'
+                  · simp [h'] at hs
+                  · omega
+              rw [s3.addLiteral_err k hk3]
+              exact e3 g f (e2 g f (e1 g f h))⟩
     | .early c =>
       have : (s.put k).open_ < s.open_ := s.open_put k (by simpa using hs)
       match tr G hG fixed c (s.put k) with
-      | ⟨s1, h1, _, e1⟩ => ⟨s1, St.le_trans (s.le_put k) h1, h1 k (s.put_set k), fun g f h => e1 g f h⟩
+      | ⟨s1, h1, _, b1, e1⟩ => ⟨s1, St.le_trans (s.le_put k) h1, h1 k (s.put_set k), by
+          intro g i h
+          have hw : G.wrank c ≤ G.wrank k := by have := g k; rw [hk] at this; exact this
+          rcases b1 g i h with h | h
+          · rcases s.put_set_imp k i h with rfl | h
+            · exact Or.inr (Nat.le_refl _)
+            · exact Or.inl h
+          · exact Or.inr (Nat.le_trans h hw), fun g f h => e1 g f h⟩
 termination_by (s.open_, G.rank k)
 decreasing_by
   all_goals simp_wf
